@@ -258,6 +258,7 @@ static void run_threads_body(const Plan &p, World &w, Ctx &x, RunOut &out, bool 
                     h.got = w.sut_apply(op, me);
                     sim_op_end();
                 } catch (Abort &) { stop = true; h.res = sim_event(); break; }
+                if (w.is_mutation(op) && !h.got.fail) me.mutations++;
                 h.res = sim_event();
                 sim_yield(Y_OP);
             }
